@@ -8,12 +8,19 @@ IMPORTS = ["Base.Prelude", "Model.Undo", "Model.Obs"]
 EX_EDITS = [":s/o/0/<CR>", ":%s/a/A/g<CR>", ":d<CR>", ":2d<CR>", ":1,2d<CR>", ":s/\\w+/W/<CR>", ":%s/é/E/<CR>"]
 
 
+BLOCK_EDITS = ["<c-v>jcX<esc>", "<c-v>jIab<esc>", "<c-v>jlAé<esc>", "<c-v>jjcnew<esc>", "<c-v>jld", "<c-v>jI<esc>", "l<c-v>jjc<esc>", "<c-v>jr#", "<c-v>j$Aend<esc>"]
+
+
 def gen_history(rng):
     n = rng.randint(1, 12)
     keys = []
     for _ in range(n):
         r = rng.random()
-        if r < 0.62:
+        if r < 0.08:
+            keys.append(rng.choice(BLOCK_EDITS))
+            if rng.random() < 0.5:
+                keys += ["u", "<c-r>"]
+        elif r < 0.62:
             keys.append(V.edit(rng))
         elif r < 0.70:
             keys.append(rng.choice(EX_EDITS))
@@ -66,6 +73,7 @@ def run(chk, binary):
         # flatten the ViCmd trace into model operations
         ops = []
         seen = [text]
+        cur_text = text           # the text after the previous ViCmd
         last_changed = False     # the previous ViCmd was a change (not u/<c-r>) that altered the text
         ok = True
         for k, st in zip(hist + ["u"] * 14, steps):
@@ -74,7 +82,7 @@ def run(chk, binary):
                     ok = False      # the command returned Err half way: its effect on the stacks is not traced
                     break
                 if c["undo_op"]:
-                    ops.append((1 if c["verb"] == "Undo" else 2, [], False))
+                    ops.append((1 if c["verb"] == "Undo" else 2, None, [], False))
                     # ---- oracles on the implementation's own trace ----
                     if c["after"] not in seen:
                         chk.violation("spec:undo/redo produced a text that was never a state of the buffer",
@@ -84,12 +92,20 @@ def run(chk, binary):
                                       dict(case0, at_key=k, before=c["before"], after=c["after"]))
                     last_changed = False
                 else:
-                    ops.append((0, txt(c["after"]), bool(c["char_insert"])))
+                    # the text changed between two commands: handle_block_insert copied the typed text
+                    pre = C("Some", txt(c["before"])) if c["before"] != cur_text else None
+                    if pre is not None:
+                        dist["block_insert_amends"] = dist.get("block_insert_amends", 0) + 1
+                        if c["before"] not in seen:
+                            seen.append(c["before"])
+                    ops.append((0, pre, txt(c["after"]), bool(c["char_insert"])))
                     last_changed = c["after"] != c["before"]
                     if c["char_insert"]:
                         dist["with_insert_session"] += 1
                 if c.get("after") is not None and c["after"] not in seen:
                     seen.append(c["after"])
+                if c.get("after") is not None:
+                    cur_text = c["after"]
             if not ok:
                 break
         if not ok:
